@@ -109,6 +109,10 @@ private:
 
     bool check_halfface_ordering(const std::vector<HalfFaceHandle>& _hfs) const;
 
+    /// Six quads in x-front/x-back/y-front/y-back/z-front/z-back order span eight
+    /// distinct vertices, and the two halffaces of every axis share no vertex.
+    bool has_hexahedral_structure(const std::vector<HalfFaceHandle>& _hfs) const;
+
 public:
 
     /** \brief Add cell via incident vertices
